@@ -132,6 +132,21 @@ claim(
     "DESIGN.md §3 C12",
 )
 
+claim(
+    "C14",
+    "Hypothesis property-based testing with constructed degenerate inputs (demanded force at/around each norm threshold, force parallel/antiparallel to the heading to within 1e-9..1e-2 rad) against the harness-recomputed demanded force, orthonormality predicates, closed-form thrust-axis rotation rate, Euler's equation and a differential comparison of the two flatness variants",
+    "Exploration: position_control, se23_position_control, f_ref, mr_ref_traj (module constants and generated mass/inertia), input_auto_level and eulerB321_to_quat are evaluated on random and constructed inputs; every branch class (regular, thrust below threshold, thrust parallel to heading) must be populated.",
+    "Trusts the harness's recomputation of the demanded force from the module's gains and the series left Jacobian. Alignment is asserted 1% away from the fallback thresholds; inside the degenerate branches only 'finite proper rotation' is asserted, as the property states.",
+    "DESIGN.md §3 C14",
+)
+claim(
+    "C15",
+    "Generated call histories (operation lists interpreted with the controller memory fed back: step / reset / vehicle-jump) with invariants after every step, plus property tests of stick linearity and of the attitude error laws against the harness's principal rotation vector, series left Jacobian and scipy expm",
+    "Exploration: rate PID, position loop and velocity-mode input recursions over sequences of up to 60 steps (saturations entered and released, yaw wrap on both sides); attitude pairs incl. identical rotations with opposite quaternion sign and relative angles up to pi - 1e-2; SE_2(3) error and log-linear attitude law.",
+    "Bounds used as oracles are the module's documented constants. Histories are data interpreted by the harness (equivalent to a rule-based machine; the whole list shrinks as one value).",
+    "DESIGN.md §3 C15",
+)
+
 NOT_YET = "check not built yet in this round (work in progress; see DESIGN.md)"
 
 
